@@ -656,6 +656,73 @@ fn run(name: &str, args: &[String]) -> Option<String> {
                 }
             })
         }
+        "gen.oracle04" => {
+            // FLAGS MAXCOST PROGRAM REFS: property C04 on the generator entry points, implementation alone.
+            // For each path that accepts under MAXCOST with cost c: c <= MAXCOST, the sub-totals add up
+            // (cost = storage + execution + condition cost; per-spend sums), re-running with limit c gives the
+            // identical result and with limit c-1 fails with a cost/resource error.
+            let flags = flags_of(&args[0]);
+            let max_cost = dec(&args[1]);
+            let program = hx(&args[2]);
+            let refs = parse_refs(&args[3]);
+            let interned = flags.contains(ConsensusFlags::INTERNED_GENERATOR);
+            let mut out: Vec<String> = vec![];
+            for (name, legacy) in [("legacy", true), ("native", false)] {
+                let run = |lim: u64| if legacy { run_legacy(flags, lim, &program, &refs) } else { run_native(flags, lim, &program, &refs) };
+                match run(max_cost) {
+                    Err(_) => out.push(format!("{}:reject", name)),
+                    Ok(o) => {
+                        let c = o.cost;
+                        let mut bad: Vec<String> = vec![];
+                        if c > max_cost {
+                            bad.push(format!("cost-{}-above-limit-{}", c, max_cost));
+                        }
+                        let storage = if interned && !legacy { None } else { Some(program.len() as u64 * TEST_CONSTANTS.cost_per_byte) };
+                        if let Some(st) = storage {
+                            if c != st + o.execution_cost + o.condition_cost {
+                                bad.push(format!("cost-{}-is-not-storage-{}+exec-{}+cond-{}", c, st, o.execution_cost, o.condition_cost));
+                            }
+                        } else if c < o.execution_cost + o.condition_cost {
+                            bad.push("cost-below-exec+cond".into());
+                        }
+                        let cc: u64 = o.spends.iter().map(|s| s.condition_cost).sum();
+                        if cc != o.condition_cost {
+                            bad.push(format!("condition-cost-{}-is-not-sum-of-spends-{}", o.condition_cost, cc));
+                        }
+                        if !legacy {
+                            let ec: u64 = o.spends.iter().map(|s| s.execution_cost).sum();
+                            if ec > o.execution_cost {
+                                bad.push(format!("spend-execution-costs-{}-exceed-total-{}", ec, o.execution_cost));
+                            }
+                        }
+                        match run(c) {
+                            Ok(o2) => {
+                                if render_bundle(&o2, "-") != render_bundle(&o, "-") {
+                                    bad.push("result-at-limit=cost-differs".into());
+                                }
+                            }
+                            Err(e) => bad.push(format!("rejected-at-limit=cost({})", err_name(&e))),
+                        }
+                        if c > 0 {
+                            match run(c - 1) {
+                                Ok(_) => bad.push("accepted-at-limit=cost-1".into()),
+                                Err(e) => {
+                                    if !is_resource(&e) {
+                                        bad.push(format!("limit=cost-1-fails-with({})", err_name(&e)));
+                                    }
+                                }
+                            }
+                        }
+                        if bad.is_empty() {
+                            out.push(format!("{}:ok:{}", name, c));
+                        } else {
+                            out.push(format!("{}:FAIL:{}", name, bad.join("+")));
+                        }
+                    }
+                }
+            }
+            Some(out.join(" "))
+        }
         "gen.backrefs" => {
             // PROGRAM -> the same tree re-serialised with back-references (clvmr compressor)
             let mut a = Allocator::new();
